@@ -17,7 +17,10 @@ RULE = ("exhaustive: every weight-sign pattern in {+,-,0}^n for n=1..4 (random m
         "ClosestValidPenalty} x scalar/per-objective delta x absent/scalar/vector distance, infeasible and feasible, "
         "random dyadic values; representations (first stream): vectors handed over as tuple / list / numpy.ndarray / array.array / range "
         "and scalars as int / float / numpy.float64 for delta x distance x both decorators, feasibility returned as bool / "
-        "numpy.bool_ / int / any truthy-falsy object; near-tie weights (+-5e-324, +0.0, -0.0); sequences: 2-5 calls through ONE decorator object decorating 1-3 different functions "
+        "numpy.bool_ / int / any truthy-falsy object; near-tie weights (+-5e-324, +0.0, -0.0); exact numbers: DeltaPenalty with Python int constants / distances "
+        "beyond 2**53 and Fractions (scalar/vector x absent/int/Fraction distance), compared exactly; keyword names: every "
+        "extra keyword named like an internal identifier (func, self, f_ind, alpha, ...) x both decorators x feasible/infeasible; "
+        "sequences: 2-5 calls through ONE decorator object decorating 1-3 different functions "
         "(wrappers called in any and in every order), individuals of different fitness classes (sign pattern, number of "
         "objectives), feasible/infeasible mixed, different extras, individuals carrying a stale stored fitness, closest "
         "points made as repaired deepcopy clones carrying a fitness, re-evaluation of the same individual with other extras "
@@ -81,6 +84,10 @@ def sv_py(v, ints, seqtype, rep=None):
     numpy.ndarray, array.array, range when the values allow it) / how a scalar is (int when integral, float,
     numpy.float64); default: tuple/list and int/float as `ints`/`seqtype` say."""
     conv = (lambda q: int(Fr(q)) if ints and Fr(q).denominator == 1 else num(q))
+    exact = (lambda q: int(Fr(q)) if Fr(q).denominator == 1 else Fr(q))      # Python int / Fraction: exact arithmetic
+    if rep in ("pyint", "fraction"):
+        one = exact if rep == "pyint" else (lambda q: Fr(q))
+        return one(v["s"]) if "s" in v else tuple(one(x) for x in v["v"])
     if "s" in v:
         if rep == "float64":
             return numpy.float64(num(v["s"]))
@@ -480,7 +487,8 @@ def rand_extras(rng, d):
     if d["shift_mode"] == "pos" and rng.random() < 0.6:
         d["args"] = [rng.choice([0, 1, 7, "a", "bc"]) for _ in range(rng.randint(1, 3))]
     if rng.random() < 0.6:
-        d["kwargs"] = dict((rng.choice(["u", "v", "w"]), rng.choice([0, 2, "z"])) for _ in range(rng.randint(1, 2)))
+        d["kwargs"] = dict((rng.choice(["u", "v", "w", "func", "self", "alpha", "f_ind"]), rng.choice([0, 2, "z"]))
+                           for _ in range(rng.randint(1, 2)))
 
 
 def progression(rng, n, nonneg):
@@ -629,6 +637,69 @@ def make_reps(rng):
     return out
 
 
+BIG = [2 ** 53 + 1, -(2 ** 53 + 1), 2 ** 63 - 1, -(2 ** 63), 10 ** 30 + 7, 2 ** 53 + 3, 12345678901234567891]
+KWNAMES = ["func", "self", "f_ind", "f_fbl", "feasible", "feasibility", "distance", "dist", "dists", "alpha", "delta",
+           "weights", "args", "kwargs", "valid", "fitness", "wrapper", "cls", "key", "values", "w", "d", "f"]
+
+
+def make_exact(rng):
+    """DeltaPenalty on exact Python numbers: int constants / distances beyond 2**53 and Fractions, for which the
+    code's arithmetic (integer signs) is exact - the penalised value must be EXACTLY the constant moved by the
+    distance (fixed family list: scalar/vector x int/Fraction x absent/int/Fraction distance; random values)"""
+    out = []
+
+    def big(nonneg=False):
+        r = rng.random()
+        if r < 0.6:
+            v = rng.choice(BIG) + rng.randint(-2, 2)
+        elif r < 0.8:
+            v = rng.randint(-50, 50)
+        else:
+            v = rng.choice(BIG) * rng.choice([1, 3, 10 ** 6])
+        return sfr(Fr(abs(v) if nonneg else v))
+
+    def frac(nonneg=False):
+        q = Fr(rng.randint(0 if nonneg else -60, 60), rng.choice([3, 7, 9, 11, 1000003]))
+        return sfr(q)
+
+    for dkind in ("scalar", "vector"):
+        for drep, dgen in (("pyint", big), ("fraction", frac)):
+            for tkind in ("absent", "scalar", "vector"):
+                for trep, tgen in (("pyint", big), ("fraction", frac)):
+                    n = rng.randint(1, 4)
+                    signs = [rng.choice([1, -1, -1, 0]) for _ in range(n)]
+                    d = make(rng, "delta", signs, False, dkind, tkind)
+                    for key in ("delta_rep", "dist_rep", "ints"):
+                        d.pop(key, None)
+                    d["delta"] = {"s": dgen()} if dkind == "scalar" else {"v": [dgen() for _ in range(n)]}
+                    d["delta_rep"] = drep
+                    if tkind != "absent":
+                        d["dist"] = {"s": tgen(True)} if tkind == "scalar" else {"v": [tgen(True) for _ in range(n)]}
+                        d["dist_rep"] = trep
+                        d["inc"] = [rng.choice(["1", "3", "100"])]
+                    out.append(d)
+    return out
+
+
+def make_kwnames(rng):
+    """extra keyword arguments whose NAMES coincide with identifiers the decorators use internally (`func`, `self`,
+    `f_ind`, `alpha` ...): they are the caller's and must reach the evaluation function, for feasible and
+    infeasible individuals, through both decorators"""
+    out = []
+    for k in ("delta", "closest"):
+        for name in KWNAMES:
+            for feas in (True, False):
+                n = rng.randint(1, 3)
+                d = make(rng, k, [rng.choice([1, -1]) for _ in range(n)], feas, "scalar", rng.choice(["absent", "scalar"]))
+                d["kwargs"] = {name: rng.choice([0, 2, "z"])}
+                if rng.random() < 0.3:
+                    d["kwargs"][rng.choice(KWNAMES)] = 5
+                d["shift_mode"] = rng.choice(["absent", "kw", "pos"])
+                d.setdefault("shift", "3/2")
+                out.append(d)
+    return out
+
+
 def make_neartie(rng):
     """weights at the boundary of `w >= 0`: the smallest positive / negative doubles, +0.0 and -0.0"""
     tiny = sfr(Fr(5e-324))
@@ -677,6 +748,10 @@ def generate(tier, rng, mult):
         for d in make_reps(rng):
             yield d
         for d in make_neartie(rng):
+            yield d
+        for d in make_exact(rng):
+            yield d
+        for d in make_kwnames(rng):
             yield d
     for _ in range(reps):
         for n in range(1, 5):
